@@ -284,7 +284,7 @@ func ruleP19CmdEffects(p *Prog, r *Report) {
 				if !gs[0].Pol {
 					falseSucc = b.Succs[0]
 				}
-				if len(falseSucc.Preds) == 1 {
+				{
 					msg := rejectComplete(falseSucc, func(ret *ssa.Return) string {
 						if p.nilnessAt(ret.Block(), retResult(ret, 0), 0) != nnNonNil {
 							return "returns nil"
@@ -322,9 +322,7 @@ func ruleP19CmdEffects(p *Prog, r *Report) {
 			_ = nonNil
 			msg := "the bookmark is not tested for nil"
 			if ok2 {
-				if len(nilB.Preds) != 1 {
-					msg = "nil edge shared"
-				} else {
+				{
 					msg = rejectComplete(nilB, func(ret *ssa.Return) string {
 						if p.nilnessAt(ret.Block(), retResult(ret, 0), 0) != nnNonNil {
 							return "returns nil for an unknown bookmark"
@@ -537,14 +535,12 @@ func ruleP19Sorted(p *Prog, r *Report) {
 	}
 	var sortCall ssa.CallInstruction
 	var less *ssa.Function
-	eachInstr(all, func(in ssa.Instruction) {
-		if c, ok := in.(ssa.CallInstruction); ok {
-			if g := staticCallee(c); g != nil && (g.String() == "sort.Slice" || g.String() == "sort.SliceStable") && isRes(c.Common().Args[0]) {
-				sortCall = c
-				less = funcLiteral(c.Common().Args[1])
-			}
+	var site sortSite
+	for _, s := range p.sortSitesIn(all) {
+		if isRes(s.coll) {
+			sortCall, less, site = s.call, s.less, s
 		}
-	})
+	}
 	if sortCall == nil || less == nil {
 		r.bad(rule, "All:sorted", p.pos(all.Pos()), "All() does not sort the slice it returns")
 		return
@@ -587,7 +583,7 @@ func ruleP19Sorted(p *Prog, r *Report) {
 			}
 			return strip(ia.Index)
 		}
-		if idx(b.X) == ssa.Value(less.Params[0]) && idx(b.Y) == ssa.Value(less.Params[1]) {
+		if idx(b.X) == ssa.Value(site.i) && idx(b.Y) == ssa.Value(site.j) {
 			okCmp = true
 		}
 	}
@@ -638,7 +634,7 @@ func ruleP19JsonSym(p *Prog, r *Report) {
 		return
 	}
 	var encT, decT types.Type
-	eachInstr(tj, func(in ssa.Instruction) {
+	eachVInstr(tj, func(in ssa.Instruction) {
 		if c, ok := in.(ssa.CallInstruction); ok {
 			if g := staticCallee(c); g != nil && fnBase(g) == "Encode" && strings.Contains(g.String(), "encoding/json") {
 				if mi, ok := c.Common().Args[1].(*ssa.MakeInterface); ok {
@@ -648,7 +644,7 @@ func ruleP19JsonSym(p *Prog, r *Report) {
 		}
 	})
 	var unm ssa.CallInstruction
-	eachInstr(fj, func(in ssa.Instruction) {
+	eachVInstr(fj, func(in ssa.Instruction) {
 		if c, ok := in.(ssa.CallInstruction); ok {
 			if g := staticCallee(c); g != nil && g.String() == "encoding/json.Unmarshal" {
 				unm = c
@@ -772,10 +768,8 @@ func ruleP19Names(p *Prog, r *Report) {
 					// the edge must be the one where value == ""
 					pb := ph.Block().Preds[i]
 					for _, g := range append(guardsOf(pb), edgeGuard(pb, ph.Block())...) {
-						if b, ok := g.Cond.(*ssa.BinOp); ok {
-							if sv, isS2 := constString(b.Y); isS2 && sv == "" && (b.Op == token.EQL) == g.Pol {
-								fallback, okFb = s, true
-							}
+						if _, isEmpty, isG := emptyGuard(g); isG && isEmpty {
+							fallback, okFb = s, true
 						}
 					}
 				}
@@ -786,8 +780,8 @@ func ruleP19Names(p *Prog, r *Report) {
 	// Default(): lookup of the same constant
 	okDef := false
 	for _, ret := range returnsOf(def) {
-		if lk, ok := strip(retResult(ret, 0)).(*ssa.Lookup); ok {
-			if s, isS := constString(lk.Index); isS && s == fallback {
+		if key, ok := lookupOf(retResult(ret, 0)); ok {
+			if s, isS := constString(key); isS && s == fallback {
 				okDef = true
 			}
 		}
